@@ -1,4 +1,7 @@
 import CoxeterVerif.Lemmas.HeapRefine
+import CoxeterVerif.Lemmas.HeapRounded
+import CoxeterVerif.Lemmas.HeapCtor
+import CoxeterVerif.Lemmas.HeapCtorObs
 /-!
   # C16 — queries are free of side effects
 
@@ -150,6 +153,77 @@ theorem query_answer_independent_of_history (M : Meas ℝ) (hL : Spec.Lawful M) 
     | withArg name a => exact h.get_eq a (haq a (by simp [Query.argIds]))
     | _ => rfl
   rw [query_answer_spec M hL q _ hI', query_answer_spec M hL q s hI, h.cls, h.obs, harg]
+
+/-! ## every sequence of queries refines the value semantics; the order does not matter -/
+
+/-- **Refinement for histories.** The answers a caller collects over ANY sequence of queries (the full
+alphabet: every getter, `to_json` list, `get_face_area`, `to_hoomd`, `save`, queries with arguments) are
+the value semantics evaluated at the INITIAL observables: `runAnswers = map (Spec.answer …)`. No
+answer depends on its position in the sequence or on what was asked before. -/
+theorem queries_answers_spec (M : Meas ℝ) (hL : Spec.Lawful M) :
+    ∀ (qs : List Query) (s : St ℝ), Spec.Inv M s → (∀ q, q ∈ qs → ArgsOk s q) →
+      runAnswers M qs s = qs.map fun q => Spec.answer M s.cls (observe s) (q.argOf s) q := by
+  intro qs
+  induction qs with
+  | nil => intro s _ _; rfl
+  | cons q qs ih =>
+    intro s hI ha
+    have h1 := reach_run M hL q s hI
+    have hI1 := query_preserves_inv M hL q s hI (ha q (List.mem_cons_self ..))
+    have ha1 : ∀ q', q' ∈ qs → ArgsOk (run M q s).1 q' :=
+      fun q' hq' a h => Nat.lt_of_lt_of_le (ha q' (List.mem_cons_of_mem _ hq') a h) h1.next_le
+    have hrest := ih (run M q s).1 hI1 ha1
+    show answerOf (run M q s) :: runAnswers M qs (run M q s).1 = _
+    rw [hrest, query_answer_spec M hL q s hI, h1.cls, h1.obs]
+    simp only [List.map_cons, List.cons.injEq, true_and]
+    refine List.map_congr_left ?_
+    intro q' hq'
+    have harg : q'.argOf (run M q s).1 = q'.argOf s := by
+      cases q' with
+      | withArg name a =>
+        exact h1.get_eq a (ha _ (List.mem_cons_of_mem _ hq') a (by simp [Query.argIds]))
+      | _ => rfl
+    rw [harg]
+
+/-- **Ordered pairs.** For any two queries `q₁`, `q₂`: the answer of `q₂` asked right after `q₁` is the
+answer of `q₂` asked alone. -/
+theorem query_pair_order_independent (M : Meas ℝ) (hL : Spec.Lawful M) (q1 q2 : Query) (s : St ℝ)
+    (hI : Spec.Inv M s) (h1 : ArgsOk s q1) (h2 : ArgsOk s q2) :
+    answerOf (run M q2 (run M q1 s).1) = answerOf (run M q2 s) :=
+  query_answer_independent_of_history M hL [q1] q2 s hI
+    (fun q hq => by simp only [List.mem_cons, List.not_mem_nil, or_false] at hq; subst hq; exact h1) h2
+
+/-- **Queries commute.** Both answers and the observables afterwards are the same whichever of two
+queries is asked first. -/
+theorem queries_commute (M : Meas ℝ) (hL : Spec.Lawful M) (q1 q2 : Query) (s : St ℝ)
+    (hI : Spec.Inv M s) (h1 : ArgsOk s q1) (h2 : ArgsOk s q2) :
+    answerOf (run M q2 (run M q1 s).1) = answerOf (run M q2 s) ∧
+    answerOf (run M q1 (run M q2 s).1) = answerOf (run M q1 s) ∧
+    observe (runAll M [q1, q2] s) = observe (runAll M [q2, q1] s) := by
+  refine ⟨query_pair_order_independent M hL q1 q2 s hI h1 h2, query_pair_order_independent M hL q2 q1 s hI h2 h1, ?_⟩
+  have a12 : ∀ q, q ∈ [q1, q2] → ArgsOk s q := by
+    intro q hq; simp only [List.mem_cons, List.not_mem_nil, or_false] at hq
+    rcases hq with rfl | rfl <;> assumption
+  have a21 : ∀ q, q ∈ [q2, q1] → ArgsOk s q := by
+    intro q hq; simp only [List.mem_cons, List.not_mem_nil, or_false] at hq
+    rcases hq with rfl | rfl <;> assumption
+  rw [queries_preserve_observables M hL _ s hI a12, queries_preserve_observables M hL _ s hI a21]
+
+/-- **Any re-ordering.** Permuting a sequence of queries permutes the (query, answer) pairs and does
+nothing else. -/
+theorem queries_answers_perm (M : Meas ℝ) (hL : Spec.Lawful M) (qs qs' : List Query) (hp : qs.Perm qs') (s : St ℝ)
+    (hI : Spec.Inv M s) (ha : ∀ q, q ∈ qs → ArgsOk s q) :
+    (qs.zip (runAnswers M qs s)).Perm (qs'.zip (runAnswers M qs' s)) := by
+  have ha' : ∀ q, q ∈ qs' → ArgsOk s q := fun q hq => ha q (hp.mem_iff.mpr hq)
+  rw [queries_answers_spec M hL qs s hI ha, queries_answers_spec M hL qs' s hI ha']
+  have e : ∀ l : List Query, l.zip (l.map fun q => Spec.answer M s.cls (observe s) (q.argOf s) q)
+      = l.map fun q => (q, Spec.answer M s.cls (observe s) (q.argOf s) q) := by
+    intro l
+    induction l with
+    | nil => rfl
+    | cons a l ih => simp only [List.map_cons, List.zip_cons_cons, ih]
+  rw [e, e]
+  exact hp.map _
 
 /-! ## what is handed out live, what is detached -/
 
@@ -506,3 +580,290 @@ theorem to_hoomd_result_detached_spheropolygon_fails :
     norm_num
   rw [e1, e2] at h0
   simp at h0
+
+/-! ## any scalar arithmetic: footprint of a history, and the last-digit clause of `to_hoomd` -/
+
+/-- **Footprint of any history in any arithmetic** (`ℝ`, `ℚ`, `Float`, rounded reals), with no
+hypothesis on the external functions: arrays other than the live vertex array that existed before are
+bit for bit what they were, `_vertices` is still the same array, an array that was no attribute of
+the shape is none afterwards. -/
+theorem queries_footprint_any_scalar {α : Type} [Scalar α] (M : Meas α) (qs : List Query) (s : St α)
+    (hw : Spec.WF s) (ha : ∀ q, q ∈ qs → ArgsOk s q) :
+    Spec.VerticesAttached s (runAll M qs s) ∧
+    (∀ i, i < s.next → i ≠ s.fVerts → (runAll M qs s).get i = s.get i) ∧
+    (∀ i, i < s.next → Spec.Detached s i → Spec.Detached (runAll M qs s) i) :=
+  ⟨(runAll_footprint M qs s hw ha).fVerts, (runAll_footprint M qs s hw ha).get_eq,
+    (runAll_footprint M qs s hw ha).detached⟩
+
+/-- **What `to_hoomd` does to the live vertex array, in any arithmetic and for any centroid getter**
+(`Polygon`, `ConvexPolygon`, `Polyhedron`, `ConvexPolyhedron`, `ConvexSpheropolyhedron`; every array
+size): each coordinate `x` of column `k` becomes `roundTrip c₀ₖ c₁ₖ x = (x + (0 − c₀ₖ)) + (c₀ₖ − c₁ₖ)`,
+`c₀` the centroid the caller reads before, `c₁` the centroid read from the centred shape. At `Float`
+this is the statement the harness checks bit for bit against the real object. -/
+theorem to_hoomd_position_any_scalar {α : Type} [Scalar α] (M : Meas α) (s : St α) (hw : Spec.WF s)
+    (hcls : MovesVerts s.cls) :
+    (run M .toHoomd s).1.get s.fVerts =
+      mapRows (roundTrip (pubCentroid M s).x (pubCentroid M (setCentroid M s V3.zero)).x)
+        (roundTrip (pubCentroid M s).y (pubCentroid M (setCentroid M s V3.zero)).y)
+        (roundTrip (pubCentroid M s).z (pubCentroid M (setCentroid M s V3.zero)).z) (s.get s.fVerts) :=
+  toHoomd_verts_gen M s hw hcls
+
+/-- over ℝ the round trip subtracts exactly what the centroid getter reports for the centred shape -/
+theorem roundTrip_real (c0 c1 x : ℝ) : roundTrip c0 c1 x = x - c1 := by
+  simp only [roundTrip, Scalar.ofNat_real, Nat.cast_zero]
+  show x + (0 - c0) + (c0 - c1) = x - c1
+  ring
+
+/-- **Exact arithmetic, any getter, all five classes**: the shape comes back displaced by `−c₁`
+(generalises `polygon_to_hoomd_displacement`); with a translation-equivariant getter `c₁ = 0`
+(`query_preserves_observables`). -/
+theorem to_hoomd_displacement (M : Meas ℝ) (s : St ℝ) (hw : Spec.WF s) (hcls : MovesVerts s.cls) :
+    (run M .toHoomd s).1.get s.fVerts =
+      mapRows (· - (pubCentroid M (setCentroid M s V3.zero)).x) (· - (pubCentroid M (setCentroid M s V3.zero)).y)
+        (· - (pubCentroid M (setCentroid M s V3.zero)).z) (s.get s.fVerts) := by
+  rw [to_hoomd_position_any_scalar M s hw hcls]
+  congr 1 <;> funext x <;> exact roundTrip_real _ _ x
+
+/-- **The last-digit clause, as a theorem about rounded arithmetic.** Run the machine over the reals
+with EVERY arithmetic operation rounded by an arbitrary `rnd` of relative error `u ≤ 1/4` (binary64:
+`u = 2⁻⁵³`; `to_hoomd`'s two `+=` use only `+` and `−`, for which this holds for all finite results),
+with ANY centroid getter. After `to_hoomd` every coordinate of the live vertex array is within
+
+    `C + 11 · u · S`
+
+of its value before, where `C` bounds the components of `c₁` (the centroid the getter reports for the
+centred shape) and `S` bounds the coordinates, `c₀` and `c₁`. `11 u S` is last-digit rounding; `C` is 0
+for an exactly equivariant getter and otherwise the getter's rounding error — the whole content of the
+known finding `<Class>.to_hoomd:drift-beyond-last-digit`. -/
+theorem to_hoomd_drift_rounded (rnd : ℝ → ℝ) (u : ℝ) (hu0 : 0 ≤ u) (hu : u ≤ 1 / 4) (hr : RelErr rnd u)
+    (M : Meas (Rounded rnd)) (s : St (Rounded rnd)) (hw : Spec.WF s) (hcls : MovesVerts s.cls) (C S : ℝ)
+    (hC : |(pubCentroid M (setCentroid M s V3.zero)).x.val| ≤ C ∧
+          |(pubCentroid M (setCentroid M s V3.zero)).y.val| ≤ C ∧
+          |(pubCentroid M (setCentroid M s V3.zero)).z.val| ≤ C)
+    (hCS : C ≤ S)
+    (h0 : |(pubCentroid M s).x.val| ≤ S ∧ |(pubCentroid M s).y.val| ≤ S ∧ |(pubCentroid M s).z.val| ≤ S)
+    (hS : ∀ x, x ∈ s.get s.fVerts → |x.val| ≤ S) :
+    EntriesRel (fun x x' => |x'.val - x.val| ≤ C + 11 * u * S) (s.get s.fVerts)
+      ((run M .toHoomd s).1.get s.fVerts) := by
+  rw [to_hoomd_position_any_scalar M s hw hcls]
+  have hC0 : 0 ≤ C := le_trans (abs_nonneg _) hC.1
+  have hS0 : 0 ≤ S := le_trans hC0 hCS
+  have one : ∀ (c0 c1 x : Rounded rnd), |c0.val| ≤ S → |c1.val| ≤ C → |x.val| ≤ S →
+      |(roundTrip c0 c1 x).val - x.val| ≤ C + 11 * u * S := by
+    intro c0 c1 x a0 a1 ax
+    rw [Rounded.roundTrip_val]
+    have := round_trip_le_closed rnd u hu0 hu hr x.val c0.val c1.val S ax a0 (le_trans a1 hCS)
+    linarith
+  refine entriesRel_mapRows _ _ _ _ ?_ _ ?_
+  · intro x
+    have : 0 ≤ 11 * u * S := by positivity
+    simp only [sub_self, abs_zero]
+    linarith
+  · intro x hx
+    exact ⟨one _ _ x h0.1 hC.1 (hS x hx), one _ _ x h0.2.1 hC.2.1 (hS x hx), one _ _ x h0.2.2 hC.2.2 (hS x hx)⟩
+
+/-- the hypothesis of `to_hoomd_drift_rounded` is satisfiable non-trivially: rounding to multiples of
+`1/1024` towards zero on [1, 2)… — here the simplest instance, exact arithmetic (`u = 0`), for which the
+bound reads `|x' − x| ≤ C` -/
+example : RelErr (fun t => t) 0 := fun t => by simp
+
+/-- a rounding that is not the identity: halving the mantissa step is modelled by `rnd t = t·(1 + 1/8)`,
+relative error `1/8` -/
+example : RelErr (fun t => t * (1 + 1 / 8)) (1 / 8) := fun t => by
+  have : t * (1 + 1 / 8) - t = t * (1 / 8) := by ring
+  rw [this, abs_mul, abs_of_pos (by norm_num : (0:ℝ) < 1 / 8)]
+  linarith [mul_comm |t| (1 / 8 : ℝ)]
+
+/-! ## constructors: the caller's arrays -/
+
+/-- **Constructors copy.** On the accepting path of the constructor of every class (vertices given as
+`(N,3)` or `(N,2)`, with or without a `normal`, curved shapes with a `center`): the object is well
+formed, NO attribute is bound to an array the caller passed, and the caller's arrays hold what they
+held. Any scalar type. -/
+theorem constructor_detaches {α : Type} [Scalar α] (cls : Cls) (c : CtorIn α) (h : Heap α) (next : Nat)
+    (hc : c.Ok cls next) :
+    Spec.WF (construct cls c h next) ∧ (construct cls c h next).args = c.callerIds cls ∧
+    ∀ i, i ∈ c.callerIds cls →
+      Spec.Detached (construct cls c h next) i ∧ (construct cls c h next).get i = Heap.get h i :=
+  ⟨(construct_built cls c h next hc).wf, (construct_built cls c h next hc).args,
+    fun i hi => ⟨(construct_built cls c h next hc).detached i (hc i hi),
+      (construct_built cls c h next hc).get_eq i (hc i hi)⟩⟩
+
+/-- **Caller-owned arrays are never written.** Whatever the caller passed to the constructor is, after
+ANY history of queries, in ANY arithmetic (`Float` included), with ANY external functions, bit for bit
+what it was — and still shares nothing with the shape. -/
+theorem caller_arrays_never_written {α : Type} [Scalar α] (M : Meas α) (cls : Cls) (c : CtorIn α) (h : Heap α)
+    (next : Nat) (hc : c.Ok cls next) (qs : List Query)
+    (ha : ∀ q, q ∈ qs → ArgsOk (construct cls c h next) q) :
+    ∀ i, i ∈ c.callerIds cls →
+      (runAll M qs (construct cls c h next)).get i = Heap.get h i ∧
+      Spec.Detached (runAll M qs (construct cls c h next)) i := by
+  intro i hi
+  have b := construct_built cls c h next hc
+  have hlt : i < (construct cls c h next).next := Nat.lt_of_lt_of_le (hc i hi) b.next_le
+  have hd := b.detached i (hc i hi)
+  obtain ⟨_, hget, hdet⟩ := queries_footprint_any_scalar M qs _ b.wf ha
+  exact ⟨(hget i hlt hd.1).trans (b.get_eq i (hc i hi)), hdet i hlt hd⟩
+
+/-- **A freshly constructed object satisfies the hypotheses of every theorem above**, provided what the
+external routines returned during construction (Qhull's facets, volume, the computed centroid) is what
+the code would recompute from the vertices (`CtorAgrees`: coherence at birth, property C03). -/
+theorem constructed_object_inv (M : Meas ℝ) (cls : Cls) (c : CtorIn ℝ) (h : Heap ℝ) (next : Nat)
+    (hc : c.Ok cls next) (ha : CtorAgrees M cls c h) : Spec.Inv M (construct cls c h next) :=
+  ⟨(construct_built cls c h next hc).wf, construct_coherent M cls c h next hc ha⟩
+
+/-- **From the constructor's arguments to every answer, with no heap in between.** For every class, every
+input accepted by its constructor and every sequence of queries: the observables stay what the constructor
+made of the CONTENTS of the caller's arrays (`constructObs`: padded with a zero column for `(N,2)` input,
+reordered for the convex planar classes, the normal normalised), each answer is the value semantics at
+those observables, and the caller's arrays are bit for bit what they were. -/
+theorem constructed_object_histories (M : Meas ℝ) (hL : Spec.Lawful M) (cls : Cls) (c : CtorIn ℝ) (h : Heap ℝ)
+    (next : Nat) (hc : c.Ok cls next) (ha : CtorAgrees M cls c h) (qs : List Query)
+    (hq : ∀ q, q ∈ qs → ArgsOk (construct cls c h next) q) :
+    observe (runAll M qs (construct cls c h next)) = constructObs cls c h ∧
+    runAnswers M qs (construct cls c h next) =
+      qs.map (fun q => Spec.answer M cls (constructObs cls c h) (q.argOf (construct cls c h next)) q) ∧
+    ∀ i, i ∈ c.callerIds cls → (runAll M qs (construct cls c h next)).get i = Heap.get h i := by
+  have hI := constructed_object_inv M cls c h next hc ha
+  refine ⟨?_, ?_, fun i hi => (caller_arrays_never_written M cls c h next hc qs hq i hi).1⟩
+  · rw [queries_preserve_observables M hL qs _ hI hq, observe_construct cls c h next hc]
+  · rw [queries_answers_spec M hL qs _ hI hq, observe_construct cls c h next hc, construct_cls]
+
+noncomputable section
+/-- the caller's `(4,3)` float64 array (id 0) and `normal` (id 1) -/
+def C16.Ex.callerHeap : Heap ℝ := [(0, [10, 20, 5, 12, 20, 5, 12, 21, 5, 10, 21, 5]), (1, [0, 0, 2])]
+
+def C16.Ex.ctorIn : CtorIn ℝ where
+  verts := 0
+  twoCols := false
+  normal := some 1
+  center := 0
+  consts := []
+  computedNormal := [0, 0, 1]
+  order := fun vs => vs
+  eqs := []
+  seqs := []
+  cen := []
+  volume := 0
+end
+
+open C16.Ex in
+/-- `ConvexPolygon(verts, normal=n)`, then `to_hoomd`, `inertia_tensor`, `to_json([...])`, `to_hoomd`: the
+caller's two arrays are what they were and share nothing with the polygon -/
+example : ∀ i, i ∈ [0, 1] →
+    (runAll M [.toHoomd, .get .inertiaTensor, .toJson [.vertices, .normal, .inertiaTensor], .toHoomd]
+      (construct .convexPolygon ctorIn callerHeap 2)).get i = Heap.get callerHeap i ∧
+    Spec.Detached (runAll M [.toHoomd, .get .inertiaTensor, .toJson [.vertices, .normal, .inertiaTensor], .toHoomd]
+      (construct .convexPolygon ctorIn callerHeap 2)) i :=
+  caller_arrays_never_written M .convexPolygon ctorIn callerHeap 2
+    (by intro i hi; simp [CtorIn.callerIds, Cls.kind, ctorIn] at hi; rcases hi with rfl | rfl <;> decide) _
+    (by
+      intro q hq a h
+      simp only [List.mem_cons, List.not_mem_nil, or_false] at hq
+      rcases hq with rfl | rfl | rfl | rfl <;> simp [Query.argIds] at h)
+
+open C16.Ex in
+/-- the normalised copy: `_normal` of the constructed polygon is a NEW array holding `n/|n|` -/
+example : (construct .polygon ctorIn callerHeap 2).get (construct .polygon ctorIn callerHeap 2).fNormal = [0, 0, 1] ∧
+    (construct .polygon ctorIn callerHeap 2).get 1 = [0, 0, 2] := by
+  constructor
+  · simp [construct, constructPlanar, ctorNormal, ctorVerts, ctorIn, blank, St.alloc, St.write, St.setNormal,
+      St.setVerts, St.get, Heap.set, Heap.get, callerHeap, normalise]
+  · simp [construct, constructPlanar, ctorNormal, ctorVerts, ctorIn, blank, St.alloc, St.write, St.setNormal,
+      St.setVerts, St.get, Heap.set, Heap.get, callerHeap]
+
+open C16.Ex in
+/-- `constructed_object_histories` applies to `ConvexPolygon(verts, normal=n)` of the example -/
+example : CtorAgrees M .convexPolygon ctorIn callerHeap where
+  verts := fun _ => by simp [constructObs, Cls.kind, ctorVertsVal, ctorIn, callerHeap, Heap.get]
+  eqs := fun h => by simp [Cls.kind] at h
+  seqs := fun h => by simp [Cls.kind] at h
+  volume := fun h => by simp [Cls.kind] at h
+  cen := fun h => by simp [Cls.kind] at h
+  centre := fun h => by simp [Cls.kind] at h
+
+/-- the object `Polygon.__init__` WOULD build if `np.array(vertices, …)` were `np.asarray(vertices, …)`
+and the caller passed an `(N,3)` float64 C-contiguous array: `_vertices` IS the caller's array -/
+noncomputable def C16.Ex.aliased : St ℝ :=
+  constructPlanarNoCopy C16.Ex.ctorIn (blank .polygon C16.Ex.callerHeap 2 [] [0])
+
+open C16.Ex in
+theorem C16.Ex.aliased_wf : Spec.WF aliased := by
+  refine ⟨by decide, by decide, by decide, by decide, by decide, ?_, ?_, ?_, ?_, ?_⟩ <;>
+    simp [aliased, constructPlanarNoCopy, blank, St.alloc, St.setVerts, St.setNormal]
+
+open C16.Ex in
+/-- **Without the copy in the constructor the property fails** (the exact-arithmetic shadow of what
+happens in floating point): the caller's array is an attribute of the shape, and with a centroid
+getter that is not exactly translation-equivariant `to_hoomd` — a query — changes the caller's array
+(first coordinate 10 ↦ 30). `caller_arrays_never_written` rests on `np.array` copying. -/
+theorem construct_without_copy_fails :
+    ¬ (Spec.Detached aliased 0) ∧
+    ¬ ∀ (M' : Meas ℝ), (run M' .toHoomd aliased).1.get 0 = Heap.get callerHeap 0 := by
+  refine ⟨fun h => h.1 rfl, fun h => ?_⟩
+  have h2 := polygon_to_hoomd_displacement M2 aliased aliased_wf (Or.inl rfl)
+  have h3 : (run M2 .toHoomd aliased).1.get aliased.fVerts = Heap.get callerHeap 0 := h M2
+  rw [h2] at h3
+  simp [aliased, constructPlanarNoCopy, blank, St.alloc, St.setVerts, St.setNormal, St.get, Heap.set, Heap.get,
+    callerHeap, ctorIn, M2, M, shiftRows] at h3
+  norm_num at h3
+
+/-! ### the rounded-arithmetic theorem on a concrete shape -/
+noncomputable section
+theorem C16.Ex.sub_x {α} [Scalar α] (u v : V3 α) : (u - v).x = u.x - v.x := rfl
+theorem C16.Ex.sub_y {α} [Scalar α] (u v : V3 α) : (u - v).y = u.y - v.y := rfl
+theorem C16.Ex.sub_z {α} [Scalar α] (u v : V3 α) : (u - v).z = u.z - v.z := rfl
+/-- a coarse rounding: every result 1/8 too large in magnitude -/
+def C16.Ex.r8 : ℝ → ℝ := fun t => t * (1 + 1 / 8)
+
+def C16.Ex.MR : Meas (Rounded r8) where
+  cen := fun vs _ => match vs with | x :: y :: z :: _ => ⟨x, y, z⟩ | _ => V3.zero
+  cenV := fun _ vs => match vs with | x :: y :: z :: _ => ⟨x, y, z⟩ | _ => V3.zero
+  vol := fun _ => lit 1
+  eqs := fun _ => []
+  seqs := fun _ => []
+  rot := fun _ vs => vs
+  gather := fun vs => vs
+  tensor2 := fun _ _ _ => []
+  tensor3 := fun _ _ => []
+  value := fun _ _ => []
+  withArg := fun _ _ a => a
+  prep := fun _ _ a => a
+  stl := fun _ c => c
+
+def C16.Ex.polyR : St (Rounded r8) where
+  heap := [(0, [⟨8⟩, ⟨16⟩, ⟨4⟩, ⟨10⟩, ⟨16⟩, ⟨4⟩, ⟨10⟩, ⟨17⟩, ⟨4⟩]), (1, [⟨0⟩, ⟨0⟩, ⟨1⟩]), (2, []), (3, []), (4, [])]
+  next := 5
+  cls := .polygon
+  fVerts := 0
+  fNormal := 1
+  fCen := 2
+  fEqs := 3
+  fSeqs := 4
+  volume := ⟨0⟩
+  consts := []
+  cAreas := none
+  cFaceCen := none
+  cEdges := none
+  handed := [0]
+  args := []
+
+open C16.Ex in
+/-- `to_hoomd_drift_rounded` on a concrete triangle at (8,16,4) with a coarse rounding (every result 1/8 too
+large, `u = 1/8`) and the first-vertex centroid getter: `c₁ = (−1.125, −2.25, −0.5625)`, `C = 3`, `S = 17` -/
+example : EntriesRel (fun x x' => |x'.val - x.val| ≤ 3 + 11 * (1 / 8) * 17) (polyR.get polyR.fVerts)
+    ((run MR .toHoomd polyR).1.get polyR.fVerts) := by
+  refine to_hoomd_drift_rounded r8 (1 / 8) (by norm_num) (by norm_num) ?_ MR polyR ?_ (Or.inl rfl) 3 17 ?_ (by norm_num) ?_ ?_
+  · intro t
+    have : r8 t - t = t * (1 / 8) := by unfold r8; ring
+    rw [this, abs_mul, abs_of_pos (by norm_num : (0:ℝ) < 1 / 8)]
+    linarith [mul_comm |t| (1 / 8 : ℝ)]
+  · refine ⟨by decide, by decide, by decide, by decide, by decide, ?_, ?_, ?_, ?_, ?_⟩ <;> simp [polyR]
+  · simp [pubCentroid, setCentroid, polyR, Cls.kind, MR, St.write, St.get, Heap.set, Heap.get, shiftRows, V3.zero, r8, sub_x, sub_y, sub_z]
+    norm_num [abs_le]
+  · simp [pubCentroid, polyR, Cls.kind, MR, St.get, Heap.get]
+    norm_num [abs_le]
+  · intro x hx
+    simp [polyR, St.get, Heap.get] at hx
+    rcases hx with rfl | rfl | rfl | rfl | rfl | rfl | rfl | rfl | rfl <;> norm_num [abs_le]
+end
